@@ -407,7 +407,7 @@ func caseC20(c *Ctx) {
 	s.open = 0
 	// resource IDs are independent of component IDs: registration order decides
 	if !s.Failed() {
-		for i, id := range ecs.ResourceIDs(s.W) {
+		for i, id := range scribbledRes(ecs.ResourceIDs(s.W)) {
 			if i >= len(s.ResIDs) || id != s.ResIDs[i] {
 				s.fail("res.ids", "ResourceIDs()[%d] is not the %d-th registered resource type", i, i)
 				break
